@@ -28,9 +28,16 @@ func SinceTick() time.Duration {
 	return time.Since(time.Unix(0, t))
 }
 
+// CaseFile, when set, receives the current case on every SetCurrentCase (race parts only: the
+// orchestrator reads it back when the worker is killed by a fatal runtime error).
+var CaseFile string
+
 func SetCurrentCase(v any) {
 	b, _ := json.Marshal(v)
 	currentCase.Store(string(b))
+	if CaseFile != "" {
+		os.WriteFile(CaseFile, b, 0o644)
+	}
 }
 
 func CurrentCase() string {
